@@ -388,7 +388,8 @@ func runC02(r *core.Run) {
 					if named == 0 {
 						named, cfgClass = counts[0], "listed"
 					}
-					pol, perr := gcetcbendorsement.SevPolicy(ctx, le, &gcetcbendorsement.SevPolicyOptions{LaunchVmsas: named, Base: basePol, Overwrite: overwrite})
+					// (with a count named, also allowing an unspecified one changes nothing: the named count pins)
+					pol, perr := gcetcbendorsement.SevPolicy(ctx, le, &gcetcbendorsement.SevPolicyOptions{LaunchVmsas: named, Base: basePol, Overwrite: overwrite, AllowUnspecifiedVmsas: r.Bool("allow-unspecified-too")})
 					if perr != nil {
 						err = perr
 						break
